@@ -432,6 +432,12 @@ func run(r *engine.Run) {
 	for _, g := range append([]string{""}, namesBusy[1:]...) {
 		simIdx = append(simIdx, mkPath(busy, idxBusy, g, "", ""))
 	}
+	simListPlain := append([]*twin.TxGen{}, alphaPlain...)
+	simListPlain = append(simListPlain, AuthoritySims(nil, plain.Info)...)
+	nBusySims := len(simIdx)
+	for _, g := range []string{"", "oracle.request.ok", "oracle.activate.v2", "bandtss.request-signature.ok"} {
+		simIdx = append(simIdx, mkPath(plain, idxPlain, g, "", ""))
+	}
 	simOK := 0
 	complete = engine.ParallelFor(int64(len(simIdx)), 0, deadline, func(_ int, j int64) {
 		p := simIdx[j]
@@ -439,8 +445,12 @@ func run(r *engine.Run) {
 		ra := twin.RunPath(p.base, p.blocks, twin.Deviation{Index: -1}, false)
 		withSims := make([]twin.Block, len(p.blocks))
 		copy(withSims, p.blocks)
+		sl := simList
+		if int(j) >= nBusySims {
+			sl = simListPlain
+		}
 		for i := range withSims {
-			withSims[i].Sims = simList
+			withSims[i].Sims = sl
 		}
 		rs := twin.RunPath(p.base, withSims, twin.Deviation{Index: -1}, false)
 		exclusive.RUnlock()
@@ -457,7 +467,7 @@ func run(r *engine.Run) {
 			}
 			// find the simulated transaction that matters (smallest single one), for the fingerprint
 			culprit := "several"
-			for _, g := range simList {
+			for _, g := range sl {
 				one := make([]twin.Block, len(p.blocks))
 				copy(one, p.blocks)
 				for i := range one {
